@@ -325,6 +325,9 @@ def gen(item, rng, tier):
     ee = int(rng.random() < 0.3)
     st = P.main_state(rng, cfg, mode, 1, te, extra, e=e_main, ee=ee)
     st['sys']['sctlr'] = G.sctlr_value(m=1, a=0, u=1, te=te, v=0, br=1, ee=ee)
+    if cfg['have_security_ext'] and rng.random() < 0.4:
+        # Non-secure program and handlers (SCR.AW seeded; FW=1 so that a Non-secure FIQ entry can mask F)
+        st['sys']['scr'] = 1 | 1 << 4 | rng.getrandbits(1) << 5
     st['cpsr'] = (st['cpsr'] & 0x0FFFFFFF) | nzcv << 28
     for i, v in enumerate(regs0):
         st['R']['R%dusr' % i] = v
